@@ -160,10 +160,11 @@ PTRFN = ['cJSONUtils_GetPointerCaseSensitive', 'get_item_from_pointer', 'decode_
 for K, P in ((2, 4), (2, 5), (3, 5), (2, 6)):
     for shape in range(6):
         QM(('C15',), 'ptr.resolve.K%dP%d.S%d' % (K, P, shape), 'harness/pointer.c', defs=['-DK=%d' % K, '-DP=%d' % P, '-DMODE=0', '-DSHAPE=%d' % shape], unwind=K + 2, link=['cJSON.c'],
-           unwindset=ML(K * K + K + 3, 50) + ['strcmp.0:4', 'get_item_from_pointer.0:%d' % (P + 2), 'get_item_from_pointer.2:%d' % (P + 2), 'decode_array_index_from_pointer.0:%d' % (P + 2),
-                                                'compare_pointers.0:4', 'ref_resolve.0:%d' % (P + 2), 'ref_resolve.1:%d' % (P + 2), 'ref_resolve.2:%d' % (P + 2), 'ref_resolve.3:%d' % (K + 2), 'ref_resolve.4:4'], cost=K * P, tiers=('quick', 'thorough') if (K, P) == (2, 5) else ('thorough',), functions=PTRFN, timeout=1800)
-for K in (2, 3):
-    for shape in range(6):
-        QM(('C15', 'C07'), 'ptr.build.K%d.S%d' % (K, shape), 'harness/pointer.c', defs=['-DK=%d' % K, '-DMODE=1', '-DSHAPE=%d' % shape], unwind=14, link=['cJSON.c'],
-           unwindset=ML(K * K + K + 3, 50) + ['strcmp.0:4', 'cJSONUtils_FindPointerFromObjectTo:2', 'vf_memcpy.0:16', 'strlen.0:14', 'strcat.0:14', 'vf_sprintf.0:8', 'vf_sprintf.1:14', 'vf_sprintf.2:8', 'vf_sprintf.3:8'], cost=K * 20,
-           tiers=('quick', 'thorough') if K == 2 else ('thorough',), functions=PTRFN, timeout=1800)
+           unwindset=ML(K * K + K + 3, 50) + ['strcmp.0:4', 'get_item_from_pointer.0:%d' % (K + 2), 'get_item_from_pointer.1:%d' % (P + 2), 'get_item_from_pointer.2:%d' % (P + 2), 'decode_array_index_from_pointer.0:%d' % (P + 2),
+                                                'compare_pointers.0:4', 'get_array_item.0:%d' % (K + 2), 'ref_resolve.0:%d' % (P + 2), 'ref_resolve.1:%d' % (P + 2), 'ref_resolve.2:4', 'ref_resolve.3:%d' % (K + 2), 'ref_resolve.4:%d' % (P + 2)],
+           cost=K * P, tiers=('quick', 'thorough') if (K, P) == (2, 5) else ('thorough',), functions=PTRFN, timeout=1800)
+for K in (2, 3, 4):
+    QM(('C15', 'C07', 'C14'), 'ptrunit.build.K%d' % K, 'harness/ptr_unit.c', defs=['-DK=%d' % K], unwind=K + 2, link=['cJSON.c'], stub=['cJSONUtils_FindPointerFromObjectTo'], stub_lib='cJSON_Utils.c',
+       unwindset=ML(K + 3, 50) + ['strcmp.0:10', 'vf_memcpy.0:10', 'strlen.0:10', 'strcat.0:10', 'strcat.1:10', 'vf_sprintf.0:8', 'vf_sprintf.1:10', 'vf_sprintf.2:8', 'vf_sprintf.3:8', 'vf_put_ulong.0:3', 'vf_put_ulong.1:3',
+                                   'encode_string_as_pointer.0:4', 'pointer_encoded_length.0:4'], cost=K * 5,
+       tiers=('quick', 'thorough') if K == 3 else ('thorough',), functions=PTRFN, timeout=1200)
